@@ -1434,13 +1434,22 @@ impl<R: std::io::Read> Decoder<R> {
             // if total number of remaining samples isn't known,
             // treat an EOF error as the end of stream
             // (this is an uncommon case)
-            None => match FrameHeader::read(crc16_reader.by_ref(), self.blocks.streaminfo()) {
-                Ok(header) => header,
-                Err(Error::Io(err)) if err.kind() == std::io::ErrorKind::UnexpectedEof => {
-                    return Ok(None);
+            None => {
+                let mut header_reader = crate::Counter::new(crc16_reader.by_ref());
+
+                match FrameHeader::read(&mut header_reader, self.blocks.streaminfo()) {
+                    Ok(header) => header,
+                    // data ending cleanly between frames is the end of the stream,
+                    // but data ending inside a frame header is a truncated file
+                    Err(Error::Io(err))
+                        if err.kind() == std::io::ErrorKind::UnexpectedEof
+                            && header_reader.count == 0 =>
+                    {
+                        return Ok(None);
+                    }
+                    Err(err) => return Err(err),
                 }
-                Err(err) => return Err(err),
-            },
+            }
         };
 
         read_subframes(
